@@ -204,7 +204,7 @@ func (p *Prop) Generate(base uint64, index int, env *sim.Env) *sim.Case {
 		sp.ShortEmb = 1 + r.Intn(sim.MinInt(sp.N, 4))
 	}
 	if sp.Op == "filter" {
-		sp.Filter = sim.Pick(r, []string{"section", "page", "pagerange", "elementtype", "tables", "lists", "images", "mintokens", "maxtokens", "search", "chain", "branch", "branch"})
+		sp.Filter = sim.Pick(r, []string{"section", "page", "pagerange", "elementtype", "tables", "lists", "images", "mintokens", "maxtokens", "search", "chain", "branch", "branch", "stateful"})
 		sp.FilterArg = r.Intn(25)
 	}
 	if sp.Op == "stream" {
@@ -980,6 +980,27 @@ func (p *Prop) filterCheck(sp *Spec, chunks []*rag.Chunk, fail func(string, stri
 			got = cc.Search(kw)
 			again = func() *rag.ChunkCollection { return cc.Search(kw) }
 			pred = func(c *rag.Chunk) bool { return strings.Contains(strings.ToLower(c.Text), strings.ToLower(kw)) }
+		case "stateful":
+			// a predicate with memory (the first chunk of every section; at most three chunks
+			// with tables): Filter asks it once per chunk, in order
+			seen := map[string]bool{}
+			tables := 0
+			mk := func() func(*rag.Chunk) bool {
+				seen, tables = map[string]bool{}, 0
+				return func(c *rag.Chunk) bool {
+					if c.Metadata.HasTable {
+						tables++
+						return tables <= 3
+					}
+					if seen[c.Metadata.SectionTitle] {
+						return false
+					}
+					seen[c.Metadata.SectionTitle] = true
+					return true
+				}
+			}
+			got = cc.Filter(mk())
+			pred = mk()
 		case "branch":
 			// an intermediate result used twice: both uses, and the intermediate result itself,
 			// must be pure selections
